@@ -157,6 +157,14 @@ fn main() {
             std::thread::sleep(Duration::from_millis(ms));
         }
     }
+    if let Some(sig) = beh.get("kill_self").and_then(|x| x.as_i64()) {
+        use std::io::Write;
+        let _ = std::io::stdout().flush();
+        unsafe {
+            libc::kill(libc::getpid(), sig as i32);
+        }
+        std::thread::sleep(Duration::from_secs(5));
+    }
     let end_ns = monotonic_ns();
     write_atomic(
         &trace_dir,
